@@ -675,6 +675,13 @@ constexpr bool will_conversion_truncate(Quantity<U, R> q, TargetUnitSlot target_
         return true;
     }
 
+    // Narrowing an integral value never truncates.  Return before performing the unit conversion,
+    // which could overflow (undefined behaviour, for signed types) for values that the overflow
+    // checker would flag.
+    if (std::is_integral<Common>::value) {
+        return false;
+    }
+
     const auto converted_but_not_narrowed = to_common.coerce_in(target_unit);
     return detail::will_static_cast_truncate<TargetRep>(converted_but_not_narrowed);
 }
